@@ -540,8 +540,7 @@ def ground_literals(w: World, f, b, quantified=frozenset()):
             else:
                 go(inner, q, not pos)
         elif h in ("forall", "exists"):
-            vs = typed_list(f[1])
-            go(f[2], q | {v for v, _ in vs}, pos)
+            return  # quantified conditions stay lifted: outside C20's statement
         elif h == "=" and len(f) == 3 and not is_numeric_term(w, f[1]) and not is_numeric_term(w, f[2]):
             if not mentions(f, q):
                 eqs.append(("=", subst(f[1], b), subst(f[2], b)))
